@@ -24,6 +24,31 @@ mod verif_driver_ops {
         PParams { network: crate::Network::Testnet, min_fee_coefficient: a, min_fee_constant: b, coins_per_utxo_byte: 4310, cost_models: Default::default() }
     }
 
+    // C05 / C20: the compiler works with exactly the configuration it was given and starts (and restarts) without a
+    // remembered body.  BOUND: 7 margins x 2 protocol-parameter sets.
+    #[test]
+    fn compiler_new_and_reset_contract() {
+        use tx3_tir::compile::Compiler as _;
+        let mut n = 0;
+        for extra in [None, Some(0u64), Some(1), Some(199_999), Some(200_000), Some(2_000_001), Some(u64::MAX / 4)] {
+            for (a, b) in [(44u64, 155381u64), (1, 2)] {
+                n += 1;
+                let cursor = crate::ChainPoint { slot: 7, hash: vec![1, 2, 3], timestamp: 99 };
+                let mut c = crate::Compiler::new(pp(a, b), crate::Config { extra_fees: extra }, cursor);
+                let ok = c.config.extra_fees == extra && c.pparams.min_fee_coefficient == a && c.pparams.min_fee_constant == b && c.cursor.slot == 7 && c.cursor.timestamp == 99 && c.latest_tx_body.is_none();
+                if !ok {
+                    witness("c05_cardano/Compiler::new#postcondition", "new", format!("extra_fees={extra:?} coefficient={a} constant={b}"), format!("config.extra_fees={:?} coefficient={} constant={} remembered body present={}", c.config.extra_fees, c.pparams.min_fee_coefficient, c.pparams.min_fee_constant, c.latest_tx_body.is_some()), "the configuration as given, nothing remembered");
+                }
+                c.reset();
+                if c.config.extra_fees != extra || c.pparams.min_fee_coefficient != a || c.latest_tx_body.is_some() {
+                    witness("c20_cardano/Compiler::reset#postcondition", "reset", format!("extra_fees={extra:?}"), format!("config.extra_fees={:?} remembered body present={}", c.config.extra_fees, c.latest_tx_body.is_some()), "configuration untouched, nothing remembered");
+                }
+            }
+        }
+        println!("VERIF-CASES fn=new n={n}");
+        println!("VERIF-CASES fn=reset n={n}");
+    }
+
     #[test]
     fn eval_size_fees_closed_form() {
         let mut n = 0;
